@@ -725,7 +725,8 @@ fn gen_op(rng: &mut Rng, m: &RefArchive) -> (Op, bool) {
         11 => Op::ReadLabels(a4),
         12 => Op::WriteString(a4, if rng.chance(1, 5) { None } else { Some(gen_sjis(rng, 5)) }),
         13 => Op::WritePointer(a4, if rng.chance(1, 5) { None } else { Some(rng.range(0, size)) }),
-        14 => Op::WriteLabel(a, gen_ident(rng, 4)),
+        // half of the label names come from a pool of three, so that equal names meet on one cell
+        14 => Op::WriteLabel(a, if rng.bool() { rng.pick(&["L", "Dup", ""]).to_string() } else { gen_ident(rng, 4) }),
         15 => Op::ReadLabelIdx(a4, rng.below(3)),
         16 => Op::ReadCString(a4),
         17 => Op::DeleteLabel(a4, rng.below(3)),
